@@ -7,6 +7,6 @@ Separate Extraction
   get_decode_time get_sample_nr_at_time get_cto
   get_segment_starts get_segment_intervals get_segment_intervals_pinned
   segment_plan segment_plan_pinned
-  resegment fragmentify
+  resegment resegment_file nr_samples_first_truns fragmentify
   create_multi add_sample_to_track add_all combine_tracks read_track trun_layout
   read_trun.
